@@ -86,7 +86,7 @@ func genRules(t *rapid.T, slashChoices []string, withParams bool) []ruleSpec {
 	for i := 0; i < n; i++ {
 		r := ruleSpec{ID: fmt.Sprintf("r%d", i), Slash: rapid.SampledFrom(slashChoices).Draw(t, "slash"), BT: rapid.Bool().Draw(t, "bt")}
 
-		r.Rewrite = rapid.SampledFrom([]string{"", "", "scheme", "/up", "/u.p/x"}).Draw(t, "rewrite")
+		r.Rewrite = rapid.SampledFrom([]string{"", "", "scheme", "/up", "/u.p/x", "strip", "strip"}).Draw(t, "rewrite")
 
 		nr := rapid.IntRange(1, 2).Draw(t, "nroutes")
 		for k := 0; k < nr; k++ {
@@ -153,6 +153,11 @@ func toConfig(r ruleSpec) rulecfg.Rule {
 	case "":
 	case "scheme":
 		rc.Backend.URLRewriter = &rulecfg.URLRewriter{Scheme: "http"}
+	case "strip":
+		// the first segment, if the first expression starts with a literal one
+		if p := stripPrefixOf(r); p != "" {
+			rc.Backend.URLRewriter = &rulecfg.URLRewriter{PathPrefixToCut: rulecfg.PrefixCutter(p)}
+		}
 	default:
 		rc.Backend.URLRewriter = &rulecfg.URLRewriter{PathPrefixToAdd: rulecfg.PrefixAdder(r.Rewrite)}
 	}
@@ -167,6 +172,15 @@ func toConfig(r ruleSpec) rulecfg.Rule {
 	}
 
 	return rc
+}
+
+func stripPrefixOf(r ruleSpec) string {
+	// (a rule with this one route only: every path it matches starts with the segment)
+	if r.Rewrite == "strip" && len(r.Exprs) == 1 && len(r.Exprs[0]) > 1 && r.Exprs[0][0].Kind == vkit.Lit {
+		return "/" + r.Exprs[0][0].Lit
+	}
+
+	return ""
 }
 
 func newWorld(mode config.OperationMode, withDefault bool, rules []ruleSpec) (*vkit.World, error) {
@@ -822,18 +836,33 @@ func TestEncodedSlashHandling(t *testing.T) {
 
 			vkit.S.LabelIf(strings.HasSuffix(strings.ToUpper(path), "%2F"), "slash.forwarded_path_ends_with_encoded_slash")
 
+			// a stripped prefix: whether a prefix which the client spelled with escape sequences counts is not this property's
+			// business; with or without it, an encoded slash stays one. stripped is the path as sent without its first segment.
+			stripped := ""
+
+			for _, r := range rules {
+				if p := stripPrefixOf(r); r.ID == wantRule && p != "" {
+					if idx := strings.Index(path[1:], "/"); idx >= 0 && decodeUnreserved(path[:idx+1]) == p {
+						stripped = path[idx+1:]
+						vkit.S.Label("slash.forwarded_with_stripped_prefix")
+					}
+				}
+			}
+
 			switch setting {
 			case "no_decode":
 				// the same path up to the spelling of characters other than the encoded slash (a character like "{" may reach
 				// the upstream as "%7B")
-				if exceptSlashes(up) != exceptSlashes(path) {
-					t.Fatalf("no_decode: upstream received %s for client path %s", up, path)
+				if got := exceptSlashes(up); got != exceptSlashes(path) && (stripped == "" || got != exceptSlashes(stripped)) {
+					t.Fatalf("no_decode: upstream received %s for client path %s (rules %v)", up, path, rules)
 				}
 			case "on":
 				d1, _ := url.PathUnescape(up)
 				d2, _ := url.PathUnescape(path)
 
-				if strings.Contains(strings.ToUpper(up), "%2F") || d1 != d2 {
+				ds, _ := url.PathUnescape(stripped)
+
+				if strings.Contains(strings.ToUpper(up), "%2F") || (d1 != d2 && (stripped == "" || d1 != ds)) {
 					t.Fatalf("on: upstream received %s for client path %s (encoded slash must be decoded)", up, path)
 				}
 			}
